@@ -122,6 +122,12 @@ class Consume:
     def _summarise(self, f):
         if any(isinstance(x, (ast.Yield, ast.YieldFrom)) for x in walk_local(f.node)):
             return False, False
+        # a private helper that is handed the method to fetch tokens with (`self._skip(self.next_token)`): read in place, with the
+        # parameter replaced by the method that was passed
+        if any(isinstance(c, ast.Call) and isinstance(c.func, ast.Attribute) and norm(c.func.value) == "self" and c.func.attr.startswith("_")
+               and any(isinstance(a, ast.Attribute) and norm(a.value) == "self" for a in c.args) for c in walk_local(f.node)):
+            from ..inline import inlined_view
+            f = inlined_view(self.P, f)
         cfg = cfg_of(f.node)
         rets_true = []
 
